@@ -169,6 +169,11 @@ def run(ctx):
         C.check(k != 'other', 'C01-MUST-writer', 'CharacterData::serialize_internal|push#%d|%s' % (len(kinds), k), 'CharacterData::serialize_internal writes a value that went neither through escape_text nor through a number/enum formatter (raw text reaches the file)', si.where(p))
     C.check(kinds.get('escape_text', 0) == 1, 'C01-MUST-writer', 'CharacterData::serialize_internal|string-through-escape_text', 'the String arm of CharacterData::serialize_internal does not write its payload through escape_text', '%s:%d' % (si.file, si.line),
             sample={'fn': 'CharacterData::serialize_internal', 'push_str_sources': kinds})
+    # numbers are formatted from the stored value itself: nothing (rounding, re-parsing) sits between the payload and to_string
+    for p_ in calls(si, r'ToString>::to_string$|::to_string$'):
+        n_, c_, f_ = deep_sources(si, si.blocks[p_[0]]['term']['args'][0], depth=10)
+        C.check(not c_, 'C01-MUST-writer', 'CharacterData::serialize_internal|number-formatted-from-the-stored-value|%s' % ('+'.join(sorted(x.rsplit('::', 1)[-1] for x in c_)) or 'direct'),
+                'a numeric value is transformed (%s) before it is formatted: the text written is not the stored value (e.g. rounded to fewer digits), so load -> serialize -> load changes it' % sorted(x.rsplit('::', 1)[-1] for x in c_), si.where(p_))
     # escape_text receives the String payload
     et = calls(si, r'escape_text$')
     C.check(len(et) == 1 and 'CharacterData.0' in ''.join(deep_sources(si, si.blocks[et[0][0]]['term']['args'][0], depth=10)[2]) or (len(et) == 1 and any('String' in f for f in deep_sources(si, si.blocks[et[0][0]]['term']['args'][0], depth=10)[2])),
@@ -264,6 +269,30 @@ def run(ctx):
     # only the conversion in the String arm matters: the one whose argument has two origins
     C.check(okraw, 'C01-SIB-reader', 'parse_character_data|preserved-text-is-untrimmed', 'in the String arm of parse_character_data the converted text can only be the trimmed slice: for whitespace-preserving string types leading/trailing whitespace of the document is silently dropped',
             '%s:%d' % (pc.file, pc.line), sample={'fn': 'parse_character_data', 'text_origins': ['input (preserve_whitespace)', 'trim_byte_string(input)']})
+    # every attribute of the document is stored or reported: inside the attribute loop, from the point where the attribute NAME was
+    # recognised, every path to the next iteration passes the push onto the result list or an error / warning funnel
+    pa_ = P.get('ArxmlParser::parse_attribute_text')
+    pushes_a = [pos for pos, t in pa_.iter_calls() if call_matches(t, r'SmallVec::<A>::push$')]
+    fb = calls(pa_, r'AttributeName::from_bytes$')
+    okattr = len(pushes_a) == 1 and len(fb) == 1
+    if okattr:
+        loops_ = [(h, body) for h, body in pa_.natural_loops() if pushes_a[0][0] in body and fb[0][0] in body]
+        okattr = bool(loops_)
+        if okattr:
+            h, body = min(loops_, key=lambda x: len(x[1]))
+            sw = switch_edges_on_call_result(pa_, fb[0])
+            funnels = set(calls(pa_, r'ArxmlParser.*::(optional_error|error|check_version)$')) | set(pushes_a)
+            # Err exits (propagated errors) also leave the loop: returns are not targets; targets = back edges into the header
+            back = [(bi, pa_.nstmts(bi)) for bi in body if h in pa_.succs(bi)]
+            if sw is None or not back:
+                okattr = False
+            else:
+                ok_t = sw[1].get('0', sw[2])
+                # check_version alone does not store: require push or a reporting funnel other than check_version on the Ok(name) side
+                through = set(pushes_a) | set(calls(pa_, r'ArxmlParser.*::(optional_error|error)$'))
+                okattr = must_pass(pa_, (ok_t, 0), back, through=through)
+    C.check(okattr, 'C01-SIB-reader', 'parse_attribute_text|recognised-attribute-is-stored-or-reported', 'parse_attribute_text can go on to the next attribute without having stored the current one and without an error or warning (a data-dependent skip): attributes of the document are silently missing from the loaded model',
+            '%s:%d' % (pa_.file, pa_.line), sample={'fn': 'parse_attribute_text', 'per_attribute': 'push(Attribute) or optional_error(..)'})
     # attribute values and element text both go through parse_character_data
     pa = P.get('ArxmlParser::parse_attribute_text')
     pe = P.get('ArxmlParser::parse_element')
